@@ -15,6 +15,7 @@ import argparse, fcntl, glob, hashlib, json, os, re, shutil, subprocess, sys, ti
 VERIF = os.path.dirname(os.path.dirname(os.path.abspath(__file__)))
 COQ = os.path.join(VERIF, "coq")
 BUILD = os.path.join(VERIF, "build")
+RUNDIR = BUILD   # replaced in main() by a per-run scratch directory: concurrent runs never share case files or binaries
 REPO = os.environ.get("VERIF_REPO", "/repo")
 GOENV = dict(os.environ, GOFLAGS="-mod=mod", GOPROXY="off", GOSUMDB="off", GOTOOLCHAIN="local",
              CGO_ENABLED=os.environ.get("CGO_ENABLED", "0"))
@@ -153,7 +154,7 @@ def proof_stage(prop, tier, log):
 def build_driver(prop, log):
     """Extract the model and build the OCaml driver; returns path or None."""
     name = prop["driver"]
-    d = os.path.join(BUILD, "ocaml", name)
+    d = os.path.join(RUNDIR, "ocaml", name)
     os.makedirs(d, exist_ok=True)
     src = os.path.join(VERIF, "ocaml", name)
     rc, out, dt = sh(["coqc", "-Q", COQ, "SF", "-w", "-all", os.path.join(COQ, "Extract", prop["extract"] + ".v")], cwd=d, timeout=1200)
@@ -175,14 +176,14 @@ def build_driver(prop, log):
 
 def build_harness(cmdname, log):
     # private copy of the harness module whose replace directive points at the tree under test
-    hd = os.path.join(BUILD, "harness_" + cmdname)
+    hd = os.path.join(RUNDIR, "harness_" + cmdname)
     shutil.rmtree(hd, ignore_errors=True)
     shutil.copytree(os.path.join(VERIF, "harness"), hd)
     gm = open(os.path.join(hd, "go.mod")).read().replace("=> /repo", "=> " + REPO)
     open(os.path.join(hd, "go.mod"), "w").write(gm)
     shutil.copy(os.path.join(REPO, "go.sum"), os.path.join(hd, "go.sum"))
-    os.makedirs(os.path.join(BUILD, "bin"), exist_ok=True)
-    out_bin = os.path.join(BUILD, "bin", cmdname)
+    os.makedirs(os.path.join(RUNDIR, "bin"), exist_ok=True)
+    out_bin = os.path.join(RUNDIR, "bin", cmdname)
     rc, out, dt = sh(["go", "build", "-tags", "verif", "-o", out_bin, "./cmd/" + cmdname], cwd=hd, env=GOENV, timeout=1200)
     log.append("== go build %s (%.1fs) rc=%d\n%s" % (cmdname, dt, rc, out[-2000:]))
     if rc != 0:
@@ -226,6 +227,13 @@ def main():
     t0 = time.time()
     log = []
     os.makedirs(BUILD, exist_ok=True)
+    global RUNDIR
+    RUNDIR = os.path.join(BUILD, "run_%s_%d" % (pid, os.getpid()))
+    shutil.rmtree(RUNDIR, ignore_errors=True)
+    os.makedirs(RUNDIR)
+    import atexit
+    if not os.environ.get("VERIF_KEEP_BUILD"):
+        atexit.register(lambda: shutil.rmtree(RUNDIR, ignore_errors=True))
     os.makedirs(os.path.join(VERIF, "evidence", "replays"), exist_ok=True)
     violations = []   # (replay_path, suffix)
     known_lines = []
@@ -256,14 +264,14 @@ def main():
             infra_problems.append(err)
             continue
         n = h.get("n_" + tier, h.get("n_quick", 1000))
-        cases = os.path.join(BUILD, "%s_%s.cases" % (pid, h["cmd"]))
+        cases = os.path.join(RUNDIR, "%s_%s.cases" % (pid, h["cmd"]))
         if a.replay:
             rp = json.load(open(a.replay))
             open(cases, "w").write("\n".join(rp.get("case_lines", [])) + "\n")
             rc, out = 0, ""
         else:
             cmd = [hb, "-seed", str(seed), "-n", str(n), "-tier", tier, "-out", cases] + h.get("args", [])
-            rc, out, dt = sh(cmd, cwd=BUILD, env=GOENV, timeout=h.get("timeout", 3000))
+            rc, out, dt = sh(cmd, cwd=RUNDIR, env=GOENV, timeout=h.get("timeout", 3000))
             log.append("== harness %s (%.1fs) rc=%d\n%s" % (h["cmd"], dt, rc, out[-3000:]))
         if rc != 0:
             # the implementation crashed the harness process: that is an observation, not infrastructure
@@ -277,7 +285,7 @@ def main():
                     pass
         if driver is None:
             continue
-        rc, out, dt = sh([driver, cases] + h.get("driver_args", []), cwd=BUILD, timeout=h.get("timeout", 3000))
+        rc, out, dt = sh([driver, cases] + h.get("driver_args", []), cwd=RUNDIR, timeout=h.get("timeout", 3000))
         log.append("== driver %s (%.1fs) rc=%d\n%s" % (h["cmd"], dt, rc, out[-1500:]))
         if rc != 0:
             infra_problems.append("driver crashed: " + out[-1000:])
@@ -303,7 +311,7 @@ def main():
                         samples.append(line.strip()[:600])
     # extra pipelines speaking the same FAIL/STATS protocol
     for x in prop.get("extra_cmds", []):
-        cmd = x["cmd"].replace("{seed}", str(seed)).replace("{tier}", tier).replace("{build}", BUILD)
+        cmd = x["cmd"].replace("{seed}", str(seed)).replace("{tier}", tier).replace("{build}", RUNDIR)
         rc, out, dt = sh(cmd, cwd=VERIF, env=GOENV, timeout=x.get("timeout", 3000))
         log.append("== extra %s (%.1fs) rc=%d\n%s" % (cmd, dt, rc, out[-3000:]))
         if rc != 0:
